@@ -105,6 +105,25 @@ def run(ctx):
     ok = bool(after) and bool(retest) and all(any(t.id in g.reach([a], include_src=False) for t in retest) for a in after)
     ctx.ob('C33-EDITS.modifications-in-after-hooks-start-another-round', fl, after[0].ast if after else fl.node, ok,
            '' if ok else 'after the after_* hooks the flush does not re-test cache.modified')
+    # ... and what the after_* hooks queue survives until that round: between the delivery of the after-hooks and the re-test of cache.modified nothing
+    # resets the round's bookkeeping (the save queue, cache.modified, modified_collections) -- it is reset *before* the hooks run
+    def resets_round(n):
+        if n.kind != 'stmt' or n.ast is None: return False
+        a = n.ast
+        if isinstance(a, ast.Assign):
+            for t in a.targets:
+                tt = norm(t)
+                if tt in ('%s.objects_to_save[:]' % recv, '%s.objects_to_save' % recv): return True
+                if tt == '%s.modified' % recv and isinstance(a.value, ast.Constant) and a.value.value is False: return True
+        return any(isinstance(c.func, ast.Attribute) and c.func.attr == 'clear' and norm(c.func.value) in ('%s.objects_to_save' % recv, '%s.modified_collections' % recv) for c in n.calls())
+    resets = [n for n in g.nodes if resets_round(n)]
+    ctx.need(resets, 'C33-EDITS: the statements that reset the save queue / cache.modified in flush were not found')
+    for a in after:
+        r_ = g.reach([a], avoid=retest, include_src=False, edge_ok=lambda x, y, lab: lab != 'exc')
+        bad = [n for n in resets if n.id in r_]
+        ctx.ob('C33-EDITS.what-after-hooks-queue-is-not-wiped', fl, bad[0].ast if bad else a.ast, not bad,
+               '' if not bad else '`%s` runs after the after_* hooks and before cache.modified is tested again: objects a hook created, changed or deleted are taken out of '
+               'the round\'s bookkeeping, their change is never written and they get no hooks of their own' % norm(bad[0].ast), node=a.ast)
     # ---------------------------------------------------------------- EDITS: every attribute a hook changes gets its write bit (shared with C28-BITS)
     from . import C28
     C28.bits_rule(ctx, P='C33-EDITS-BITS')
@@ -130,6 +149,8 @@ def innermost_loops_with(fn_node, meth):
 
 
 MUTANTS = [
+    dict(id='C33-wipe1', file='pony/orm/core.py', fn='SessionCache.flush', old="                cache.objects_to_save[:] = ()\n                cache.modified = False\n\n                cache.call_after_save_hooks()\n", new="                cache.modified = False\n\n                cache.call_after_save_hooks()\n                cache.objects_to_save[:] = ()\n", expect='C33-EDITS.what-after-hooks'),
+    dict(id='C33-wipe2', file='pony/orm/core.py', fn='SessionCache.flush', old="                cache.objects_to_save[:] = ()\n                cache.modified = False\n\n                cache.call_after_save_hooks()\n", new="                cache.objects_to_save[:] = ()\n\n                cache.call_after_save_hooks()\n                cache.modified = False\n", expect='C33-EDITS.what-after-hooks'),
     dict(id='C33-late', file='pony/orm/core.py', fn='SessionCache.commit', old="            if cache.modified: cache.flush()\n            if cache.in_transaction:", new="            if cache.modified and cache.in_transaction: cache.flush()\n            if cache.in_transaction:", expect='C33-BEFORE.commit-flushes'),
     dict(id='C33-m1', file='pony/orm/core.py', fn='Entity.flush', old='            obj._before_save_() # should be inside', new='            pass # should be inside', expect='C33-BEFORE.save'),
     dict(id='C33-m2', file='pony/orm/core.py', fn='Entity._save_', old='        cache.saved_objects.append((obj, obj._status_))\n', new='', expect='C33-AFTER.saved-object'),
